@@ -400,6 +400,194 @@ theorem strict_slicing_accepts_ip (c : Cfg) (p out : Bytes) (wf : c.WF)
   rw [hd] at r
   exact refines_ok r
 
+/-! #### special cases with the returned packet spelled out -/
+
+section special
+open EpModel.Dec (memOf ExtSlots)
+
+/-- Ethernet II / IPv4 (`.ipv4(src, dst, ttl)`: no options, no extension) / UDP -/
+theorem build_parses_eth_ipv4_udp (c : Cfg) (p out : Bytes) (h : Eth2) (src dst : Bytes) (ttl : Nat) (u : Udp)
+    (wf : c.WF) (hl : c.link = some (.eth2 h)) (hv : c.vlan = none) (hn : c.net = Step.ipv4 src dst ttl)
+    (ht : c.tp = some (.udp u)) (hb : build c p = .ok out) :
+    Spec.decode .eth (memOf out) out.length = .ok
+      { link := some (.eth2 ⟨0, out.length⟩), exts := [],
+        net := some (.ip { v4 := true, hdr := ⟨14, 20⟩, auth := none, exts := ⟨14, 0⟩, first := none,
+                           slots := ExtSlots.none,
+                           pl := { num := 17, frag := false, src := .ipv4HeaderTotalLen,
+                                   w := ⟨34, 8 + p.length⟩, inc := false } }),
+        tp := some (.udp ⟨34, 8 + p.length⟩), stop := none } ∧
+    out.length = 42 + p.length := by
+  have ok : ParseOk c p.length := by
+    simp [ParseOk, NetOk, RawOk, TpOk, hl, hn, ht, Step.ipv4]
+  have hd := build_parses c p out wf hb ok
+  have hs := build_size c p out wf hb
+  simp only [startOf, hl] at hd
+  rw [hd]
+  simp [expPacket, expExtsAt, expNetAt, expTpAt, expTp, expIpv4, v4Frag, cfgFrag, linkLen, vlanLen, netLen,
+    endNum, tpHeaderLen, Tp.headerLen, Tp.ipNumber, Udp.headerLen, Ipv4Extensions.headerLen, hl, hv, hn, ht, Step.ipv4, hs,
+    size, Eth2.headerLen, Ipv4Header.headerLen]
+
+
+
+/-- Ethernet II / IPv6 (`.ipv6(src, dst, hop_limit)`: no extension headers) / UDP.  The payload length
+    field is `8 + p.length`, never 0, so the "zero = up to the end of the slice" convention does not
+    apply and the length source is the IPv6 header. -/
+theorem build_parses_eth_ipv6_udp (c : Cfg) (p out : Bytes) (h : Eth2) (src dst : Bytes) (hop : Nat) (u : Udp)
+    (wf : c.WF) (hl : c.link = some (.eth2 h)) (hv : c.vlan = none) (hn : c.net = Step.ipv6 src dst hop)
+    (ht : c.tp = some (.udp u)) (hb : build c p = .ok out) :
+    Spec.decode .eth (memOf out) out.length = .ok
+      { link := some (.eth2 ⟨0, out.length⟩), exts := [],
+        net := some (.ip { v4 := false, hdr := ⟨14, 40⟩, auth := none, exts := ⟨54, 0⟩, first := none,
+                           slots := ExtSlots.none,
+                           pl := { num := 17, frag := false, src := .ipv6HeaderPayloadLen,
+                                   w := ⟨54, 8 + p.length⟩, inc := false } }),
+        tp := some (.udp ⟨54, 8 + p.length⟩), stop := none } ∧
+    out.length = 62 + p.length := by
+  have ok : ParseOk c p.length := by
+    simp [ParseOk, NetOk, RawOk, TpOk, hl, hn, ht, Step.ipv6]
+  have hd := build_parses c p out wf hb ok
+  have hs := build_size c p out wf hb
+  simp only [startOf, hl] at hd
+  rw [hd]
+  simp [expPacket, expExtsAt, expNetAt, expTpAt, expTp, expIpv6, extsFrag, fragOf, cfgFrag, linkLen, vlanLen, netLen,
+    endNum, tpHeaderLen, Tp.headerLen, Tp.ipNumber, Udp.headerLen, Ipv6Exts.headerLen, Ipv6Exts.empty, optLen,
+    hl, hv, hn, ht, Step.ipv6, hs, size, Eth2.headerLen]
+
+/-- a single VLAN tag in front, TCP (any flags, any option area): one `.vlan` extension over everything
+    behind the Ethernet header; the TCP header length is the one the data offset announces. -/
+theorem build_parses_eth_vlan_ipv4_tcp (c : Cfg) (p out : Bytes) (h : Eth2) (v : Vlan) (src dst : Bytes)
+    (ttl : Nat) (t : Tcp) (wf : c.WF) (hl : c.link = some (.eth2 h)) (hv : c.vlan = some (.single v))
+    (hn : c.net = Step.ipv4 src dst ttl) (ht : c.tp = some (.tcp t)) (hb : build c p = .ok out) :
+    Spec.decode .eth (memOf out) out.length = .ok
+      { link := some (.eth2 ⟨0, out.length⟩), exts := [.vlan ⟨14, 44 + t.opts.len + p.length⟩],
+        net := some (.ip { v4 := true, hdr := ⟨18, 20⟩, auth := none, exts := ⟨18, 0⟩, first := none,
+                           slots := ExtSlots.none,
+                           pl := { num := 6, frag := false, src := .ipv4HeaderTotalLen,
+                                   w := ⟨38, 20 + t.opts.len + p.length⟩, inc := false } }),
+        tp := some (.tcp ⟨38, 20 + t.opts.len + p.length⟩ (20 + t.opts.len)), stop := none } ∧
+    out.length = 58 + t.opts.len + p.length := by
+  have ok : ParseOk c p.length := by
+    simp [ParseOk, NetOk, RawOk, TpOk, hl, hn, ht, Step.ipv4]
+  have hd := build_parses c p out wf hb ok
+  have hs := build_size c p out wf hb
+  simp only [startOf, hl] at hd
+  rw [hd]
+  simp [expPacket, expExtsAt, expNetAt, expTpAt, expTp, expIpv4, v4Frag, cfgFrag, linkLen, vlanLen, netLen,
+    endNum, tpHeaderLen, Tp.headerLen, Tp.ipNumber, Tcp.headerLen, Ipv4Extensions.headerLen, hl, hv, hn, ht, Step.ipv4, hs,
+    size, Eth2.headerLen, Ipv4Header.headerLen]
+  omega
+
+/-- two VLAN tags in front (0x88a8, then 0x8100), ICMPv6 in IPv6: two `.vlan` extensions, the outer one
+    covering the inner. -/
+theorem build_parses_eth_qinq_ipv6_icmpv6 (c : Cfg) (p out : Bytes) (h : Eth2) (vo vi : Vlan) (src dst : Bytes)
+    (hop : Nat) (i : Icmp6) (wf : c.WF) (hl : c.link = some (.eth2 h)) (hv : c.vlan = some (.double vo vi))
+    (hn : c.net = Step.ipv6 src dst hop) (ht : c.tp = some (.icmp6 i)) (hb : build c p = .ok out) :
+    Spec.decode .eth (memOf out) out.length = .ok
+      { link := some (.eth2 ⟨0, out.length⟩),
+        exts := [.vlan ⟨14, 56 + p.length⟩, .vlan ⟨18, 52 + p.length⟩],
+        net := some (.ip { v4 := false, hdr := ⟨22, 40⟩, auth := none, exts := ⟨62, 0⟩, first := none,
+                           slots := ExtSlots.none,
+                           pl := { num := 58, frag := false, src := .ipv6HeaderPayloadLen,
+                                   w := ⟨62, 8 + p.length⟩, inc := false } }),
+        tp := some (.icmp6 ⟨62, 8 + p.length⟩), stop := none } ∧
+    out.length = 70 + p.length := by
+  have ok : ParseOk c p.length := by
+    simp [ParseOk, NetOk, RawOk, TpOk, hl, hn, ht, Step.ipv6]
+  have hd := build_parses c p out wf hb ok
+  have hs := build_size c p out wf hb
+  simp only [startOf, hl] at hd
+  rw [hd]
+  simp [expPacket, expExtsAt, expNetAt, expTpAt, expTp, expIpv6, extsFrag, fragOf, cfgFrag, linkLen, vlanLen, netLen,
+    endNum, tpHeaderLen, Tp.headerLen, Tp.ipNumber, Icmp6.headerLen, Ipv6Exts.headerLen, Ipv6Exts.empty, optLen,
+    hl, hv, hn, ht, Step.ipv6, hs, size, Eth2.headerLen]
+  omega
+
+/-- ICMPv4 echo request / reply (`.icmpv4_echo_request`, `.icmpv4_echo_reply`) in IPv4 -/
+theorem build_parses_eth_ipv4_icmpv4_echo (c : Cfg) (p out : Bytes) (h : Eth2) (src dst : Bytes) (ttl id seq : Nat)
+    (wf : c.WF) (hl : c.link = some (.eth2 h)) (hv : c.vlan = none) (hn : c.net = Step.ipv4 src dst ttl)
+    (ht : c.tp = some (Step.icmpv4EchoRequest id seq) ∨ c.tp = some (Step.icmpv4EchoReply id seq))
+    (hb : build c p = .ok out) :
+    Spec.decode .eth (memOf out) out.length = .ok
+      { link := some (.eth2 ⟨0, out.length⟩), exts := [],
+        net := some (.ip { v4 := true, hdr := ⟨14, 20⟩, auth := none, exts := ⟨14, 0⟩, first := none,
+                           slots := ExtSlots.none,
+                           pl := { num := 1, frag := false, src := .ipv4HeaderTotalLen,
+                                   w := ⟨34, 8 + p.length⟩, inc := false } }),
+        tp := some (.icmp4 ⟨34, 8 + p.length⟩), stop := none } := by
+  have hs := build_size c p out wf hb
+  rcases ht with ht | ht
+  all_goals
+    have ok : ParseOk c p.length := by
+      simp [ParseOk, NetOk, RawOk, TpOk, Icmp4Ok, icmp4TypeCode, hl, hn, ht, Step.ipv4, Step.icmpv4EchoRequest,
+        Step.icmpv4EchoReply]
+    have hd := build_parses c p out wf hb ok
+    simp only [startOf, hl] at hd
+    rw [hd]
+    simp [expPacket, expExtsAt, expNetAt, expTpAt, expTp, expIpv4, v4Frag, cfgFrag, linkLen, vlanLen, netLen,
+      endNum, tpHeaderLen, Tp.headerLen, Tp.ipNumber, Icmp4.headerLen, Ipv4Extensions.headerLen, hl, hv, hn, ht,
+      Step.ipv4, Step.icmpv4EchoRequest, Step.icmpv4EchoReply, hs, size, Eth2.headerLen, Ipv4Header.headerLen]
+
+/-- no link layer, IPv4 payload announced by an ip number the decoder does not interpret
+    (`PacketBuilder::ipv4(..).write(&mut w, number, payload)`): `from_ip` returns the IPv4 layer with the
+    payload window and the number, and no transport layer. -/
+theorem build_parses_ip_raw_ipv4 (c : Cfg) (p out : Bytes) (src dst : Bytes) (ttl : Nat)
+    (wf : c.WF) (hl : c.link = none) (hv : c.vlan = none) (hn : c.net = Step.ipv4 src dst ttl) (ht : c.tp = none)
+    (hnum : c.last ≠ 1 ∧ c.last ≠ 6 ∧ c.last ≠ 17 ∧ c.last ≠ 51 ∧ c.last ≠ 58) (hb : build c p = .ok out) :
+    Spec.decode .ip (memOf out) out.length = .ok
+      { link := none, exts := [],
+        net := some (.ip { v4 := true, hdr := ⟨0, 20⟩, auth := none, exts := ⟨0, 0⟩, first := none,
+                           slots := ExtSlots.none,
+                           pl := { num := c.last, frag := false, src := .ipv4HeaderTotalLen,
+                                   w := ⟨20, p.length⟩, inc := false } }),
+        tp := none, stop := none } ∧
+    out.length = 20 + p.length := by
+  have ok : ParseOk c p.length := by
+    simp [ParseOk, NetOk, RawOk, TpOk, hl, hv, hn, ht, Step.ipv4, hnum]
+  have hd := build_parses c p out wf hb ok
+  have hs := build_size c p out wf hb
+  simp only [startOf, hl] at hd
+  rw [hd]
+  simp [expPacket, expExtsAt, expNetAt, expTpAt, expTp, expIpv4, v4Frag, cfgFrag, linkLen, vlanLen, 
+    endNum, tpHeaderLen, Ipv4Extensions.headerLen, hl, hv, hn, ht, Step.ipv4, hs, size, Ipv4Header.headerLen]
+
+/-- the same over IPv6 (numbers of the extension headers excluded as well) -/
+theorem build_parses_ip_raw_ipv6 (c : Cfg) (p out : Bytes) (src dst : Bytes) (hop : Nat)
+    (wf : c.WF) (hl : c.link = none) (hv : c.vlan = none) (hn : c.net = Step.ipv6 src dst hop) (ht : c.tp = none)
+    (hnum : c.last ≠ 0 ∧ c.last ≠ 1 ∧ c.last ≠ 6 ∧ c.last ≠ 17 ∧ c.last ≠ 43 ∧ c.last ≠ 44 ∧ c.last ≠ 51 ∧
+      c.last ≠ 58 ∧ c.last ≠ 60) (hb : build c p = .ok out) :
+    Spec.decode .ip (memOf out) out.length = .ok
+      { link := none, exts := [],
+        net := some (.ip { v4 := false, hdr := ⟨0, 40⟩, auth := none, exts := ⟨40, 0⟩, first := none,
+                           slots := ExtSlots.none,
+                           pl := { num := c.last, frag := false, src := .ipv6HeaderPayloadLen,
+                                   w := ⟨40, p.length⟩, inc := false } }),
+        tp := none, stop := none } ∧
+    out.length = 40 + p.length := by
+  have ok : ParseOk c p.length := by
+    simp [ParseOk, NetOk, RawOk, TpOk, hl, hv, hn, ht, Step.ipv6, hnum]
+  have hd := build_parses c p out wf hb ok
+  have hs := build_size c p out wf hb
+  simp only [startOf, hl] at hd
+  rw [hd]
+  simp [expPacket, expExtsAt, expNetAt, expTpAt, expTp, expIpv6, extsFrag, fragOf, cfgFrag, linkLen, vlanLen, 
+    endNum, tpHeaderLen, Ipv6Exts.headerLen, Ipv6Exts.empty, optLen, hl, hv, hn, ht, Step.ipv6, hs, size]
+
+/-- ARP behind Ethernet II: the ARP window is `packet_len()`, there is no transport layer. -/
+theorem build_parses_eth_arp (c : Cfg) (p out : Bytes) (h : Eth2) (a : Arp)
+    (wf : c.WF) (hl : c.link = some (.eth2 h)) (hv : c.vlan = none) (hn : c.net = .arp a)
+    (hb : build c p = .ok out) :
+    Spec.decode .eth (memOf out) out.length = .ok
+      { link := some (.eth2 ⟨0, out.length⟩), exts := [], net := some (.arp ⟨14, a.headerLen⟩), tp := none,
+        stop := none } := by
+  have ok : ParseOk c p.length := by simp [ParseOk, NetOk, hl, hn]
+  have hd := build_parses c p out wf hb ok
+  have hs := build_size c p out wf hb
+  simp only [startOf, hl] at hd
+  rw [hd]
+  simp [expPacket, expExtsAt, expNetAt, expTpAt, linkLen, vlanLen, hl, hv, hn, hs]
+
+end special
+
 /-! ### non-vacuity: concrete configurations satisfy the hypotheses (and the negations) -/
 
 def exCfg : Cfg :=
@@ -419,5 +607,36 @@ def exCfg6 : Cfg :=
 example : exCfg.WF ∧ Encodable exCfg 8 ∧ ¬ Encodable exCfg 65508 := by decide
 example : exCfg6.WF ∧ Encodable exCfg6 65519 ∧ ¬ Encodable exCfg6 65520 := by decide
 example : ¬ Encodable { exCfg with tp := some (Step.icmpv6EchoRequest 1 2) } 0 := by decide
+
+
+/-! parsing: the side conditions hold for the sample configurations; the expected packet of a
+    configuration with an IPv6 fragment header, evaluated; and the ICMPv4 timestamp case: a 21 byte
+    timestamp request is built without error and refused by strict decoding ("too long for a
+    timestamp message"), so `ParseOk` cannot be dropped from `build_parses`. -/
+
+example : ParseOk exCfg 8 ∧ ParseOk exCfg6 3 := by decide
+
+example : expPacket exCfg6 3 =
+    { link := some (.eth2 ⟨0, 77⟩), exts := [.vlan ⟨14, 63⟩],
+      net := some (.ip { v4 := false, hdr := ⟨18, 40⟩, auth := none, exts := ⟨58, 8⟩, first := some 44,
+                         slots := Dec.ExtSlots.none,
+                         pl := { num := 58, frag := false, src := .ipv6HeaderPayloadLen, w := ⟨66, 11⟩,
+                                 inc := false } }),
+      tp := some (.icmp6 ⟨66, 11⟩), stop := none } := by decide
+
+def exCfgTs : Cfg := { exCfg with vlan := none, tp := some (Step.icmpv4 (.tsRequest 1 2 3 4 5)) }
+
+def faultOf : Except Spec.Fault Dec.Packet → Option Spec.Fault
+  | .error f => some f
+  | .ok _ => none
+
+example : exCfgTs.WF ∧ Encodable exCfgTs 1 ∧ ParseOk exCfgTs 0 ∧ ¬ ParseOk exCfgTs 1 := by decide
+
+theorem icmpv4_timestamp_with_payload_is_built_and_rejected :
+    build exCfgTs [7] = .ok (buildOk exCfgTs [7]) ∧
+    faultOf (Spec.decode .eth (Dec.memOf (buildOk exCfgTs [7])) (buildOk exCfgTs [7]).length)
+      = some { cls := .tooLong, unit := .icmp4, off := 34, avail := 21, need := 20,
+               lim := .ipv4HeaderTotalLen, value := 0 } :=
+  ⟨build_accepts exCfgTs [7] (by decide) (by decide), by decide⟩
 
 end EpModel.Props.C10
